@@ -570,6 +570,7 @@ class Ctx:
     self.ufs = {}
     self.fresh = itertools.count()
     self.trans_terms = {'exp': [], 'log': []}
+    self.rich = []       # further TRUE facts about exp/log instances, used only to refine a counterexample (see jh.prove_all)
     self.prims_seen = set()
     self.uf_apps = []
     self.sqrt_memo = {}
@@ -682,7 +683,8 @@ class Ctx:
       az = zreal(a)
       # ground instances of true facts about exp: positivity, the tangent at 0 (convexity) and the two half-line bounds.  They
       # keep solver models of the uninterpreted function close enough to the real one for counterexamples to replay.
-      self.facts += [t > 0] + ([t >= 1 + az, z3.Implies(az <= 0, t <= 1), z3.Implies(az >= 0, t >= 1)] if RICH_TRANS[0] else [])
+      self.facts += [t > 0]
+      self.rich += [t >= 1 + az, z3.Implies(az <= 0, t <= 1), z3.Implies(az >= 0, t >= 1)]
       self.trans_terms['exp'].append((az, t))
       return t
     if fn == 'log':
@@ -690,8 +692,7 @@ class Ctx:
       az = zreal(a)
       self.trans_terms['log'].append((az, t))
       # true facts about log on its domain: log x <= x - 1, sign by the side of 1
-      if RICH_TRANS[0]:
-        self.facts += [z3.Implies(az > 0, t <= az - 1), z3.Implies(az >= 1, t >= 0), z3.Implies(z3.And(az > 0, az <= 1), t <= 0)]
+      self.rich += [z3.Implies(az > 0, t <= az - 1), z3.Implies(az >= 1, t >= 0), z3.Implies(z3.And(az > 0, az <= 1), t <= 0)]
       return mk(t, az < 0, False, az == 0)
     if fn == 'tanh':
       self.facts += [t > -1, t < 1]
@@ -1727,7 +1728,7 @@ def check_sat(constraints, timeout_s=20.0):
   return 'unknown', reason
 
 
-RICH_TRANS = [False]     # opt-in: extra ground facts about exp/log (C14), see Ctx.trans
+RICH_TRANS = [False]     # opt-in (C14): a goal that is not proved from the plain facts is re-decided with Ctx.rich added
 FALSIFY = {'tries': 10, 'timeout_ms': 4000, 'found': 0, 'attempts': 0, 'scale': Fraction(1), 'budget': 60}
 _CANDS = [Fraction(v) for v in (1, -1, 2, 0, 3, -2)] + [Fraction(1, 2), Fraction(-1, 2), Fraction(3, 2), Fraction(5)]
 
